@@ -31,9 +31,12 @@ func (o goSliceObject) getValue(index int64) (reflect.Value, bool) {
 }
 
 func (o *goSliceObject) setLength(value Value) {
-	want, err := value.ToInteger()
-	if err != nil {
-		panic(err)
+	// 15.4.5.1 step 3: the value must be an array length (ToUint32(value) = ToNumber(value)),
+	// otherwise a RangeError - never a negative or enormous Go length, never a silent truncation.
+	number := value.float64()
+	want := toUint32(value)
+	if float64(want) != number {
+		panic(newError(nil, "RangeError", 0, "invalid slice length"))
 	}
 
 	wantInt := int(want)
